@@ -1381,7 +1381,7 @@ def run(tier, only=None):
         # the seam: every function that layer 1 replaced must be one that layer 2 proved
         if do_l2:
             for fn, fs in sorted(hooked.items()):
-                if l2_status.get(fn) != "discharged":
+                if l2_status.get(fn) not in ("discharged", "violated", "known"):
                     o = Obligation("seam:%s" % fn[-40:], "L", [fn], "", "layer-1 hook target has a discharged layer-2 obligation")
                     o.unknown("compression function %s was abstracted in layer 1 but its layer-2 obligation is %s"
                               % (fn, l2_status.get(fn, "not posed")))
@@ -1435,8 +1435,26 @@ def replay(path):
     built = build(all_drivers(), tag="C17-replay")
     try:
         if "driver" not in model:
-            print("replay: compression-function counterexample; inputs: %s" % json.dumps(model.get("inputs"))[:400])
-            return 0
+            # compression-function counterexample: native compression driver against the transcription
+            kind = model["key"].split(".")[0]
+            env = {k: int(v, 16) for k, v in model["inputs"].items()}
+            if kind in ("sha2small", "sha2big"):
+                w = 32 if kind == "sha2small" else 64
+                h, blk = [env["h%d" % i] for i in range(8)], [env["b%d" % i] for i in range(2 * w)]
+                nat = built.native("drv_c17_" + kind, {"h": h, "blk": blk})["out"]
+                ref = H.sha2_compress(w, h, blk)
+            elif kind == "keccak":
+                a = [env["a%d" % i] for i in range(25)]
+                nat = built.native("drv_c17_keccak", {"a": a})["out"]
+                ref = H.keccak_f(a)
+            else:
+                h, blk = [env["h%d" % i] for i in range(8)], [env["b%d" % i] for i in range(64)]
+                nat = built.native("drv_c17_blake2s", {"h": h, "blk": blk, "ctr": env["ctr"], "last": env["last"]})["out"]
+                ref = H.blake2s_F(h, blk, env["ctr"], env["last"])
+            still = list(nat) != list(ref)
+            print("replay %s: native = %s\nstandard = %s" % (model["key"], [hex(x) for x in nat], [hex(x) for x in ref]))
+            print("VIOLATION property=C17 replay=%s" % path if still else "replay: does not reproduce on the current tree")
+            return 1 if still else 0
         drv = model["driver"]
         d = built.drivers[drv]
         msg = list(bytes.fromhex(model.get("message_hex", "")))
